@@ -29,6 +29,8 @@ pub async fn handle_did_open_text_document(
     state.documents.handle_open_file(&uri).await;
 
     send_new_compilation_request(state, session.clone(), &uri, None, false, sync_workspace);
+    #[cfg(fuellabs_sway_verif)]
+    crate::verif::point("H", "set_ic_late", 0);
     state.is_compiling.store(true, Ordering::SeqCst);
     state.wait_for_parsing().await;
     state
@@ -48,20 +50,32 @@ fn send_new_compilation_request(
 ) {
     let file_versions = file_versions(&state.documents, uri, version.map(|v| v as u64));
 
+    #[cfg(fuellabs_sway_verif)]
+    crate::verif::point("H", "load_ic", 0);
     if state.is_compiling.load(Ordering::SeqCst) {
         // If we are already compiling, then we need to retrigger compilation
+        #[cfg(fuellabs_sway_verif)]
+        crate::verif::point("H", "set_rt", 0);
         state.retrigger_compilation.store(true, Ordering::SeqCst);
     }
 
     // Check if the channel is full. If it is, we want to ensure that the compilation
     // thread receives only the most recent value.
+    #[cfg(fuellabs_sway_verif)]
+    crate::verif::point("H", "is_full", 0);
     if state.cb_tx.is_full() {
+        #[cfg(fuellabs_sway_verif)]
+        crate::verif::point("H", "try_recv", 0);
         while let Ok(TaskMessage::CompilationContext(_)) = state.cb_rx.try_recv() {
             // Loop will continue to remove `CompilationContext` messages
             // until the channel has no more of them.
+            #[cfg(fuellabs_sway_verif)]
+            crate::verif::point("H", "try_recv", 0);
         }
     }
 
+    #[cfg(fuellabs_sway_verif)]
+    crate::verif::point("H", "send", version.map_or(-1, i64::from));
     let _ = state
         .cb_tx
         .send(TaskMessage::CompilationContext(CompilationContext {
@@ -92,6 +106,8 @@ pub async fn handle_did_change_text_document(
 
     let (uri, session) = state.uri_and_session_from_workspace(&params.text_document.uri)?;
     let sync_workspace = state.get_sync_workspace_for_uri(&params.text_document.uri)?;
+    #[cfg(fuellabs_sway_verif)]
+    crate::verif::point("H", "write_doc", i64::from(params.text_document.version));
     state
         .documents
         .write_changes_to_file(&uri, &params.content_changes)
@@ -175,4 +191,13 @@ pub(crate) fn handle_did_change_watched_files(
         }
     }
     Ok(())
+}
+
+/// Verification hook: public entry to the (crate-private) `didSave` handler.
+#[cfg(fuellabs_sway_verif)]
+pub async fn verif_did_save_text_document(
+    state: &ServerState,
+    params: DidSaveTextDocumentParams,
+) -> Result<(), LanguageServerError> {
+    handle_did_save_text_document(state, params).await
 }
